@@ -3,6 +3,7 @@ from mirlib import AnchorMissing, op_place, path_matches, const_int, is_bare
 from helpers import (branches_on_call, branches_on_field, ungated_reach, chain, calls_matching, field_accesses,
                      must_pass, origin_calls, origin_summary)
 import gating
+import levels
 
 EXPLANATION = (
     'Static decision of the structural clauses of C07 on the MIR of slicec (bin+lib): (1) process-spawn and file-creating '
@@ -362,3 +363,4 @@ def run(ctx):
     ctx.run_rule('C07.3b', 'T3', 'every generator result is folded into the diagnostics; wait loop has no early exit', r_generator_results_folded, prog)
     ctx.run_rule('C07.4a', 'T2', 'compilation phases run only through apply/apply_unsafe on the no-errors edge', gating.r_phase_gating, prog)
     ctx.run_rule('C07.4b', 'T1', 'has_errors() inspects kind, not level', r_has_errors_reads_kind, prog)
+    ctx.run_rule('C07.4c', 'T1', 'level Error is carried exactly by Error kinds (exit status and gating agree)', levels.r_level_error_only_for_error_kind, prog)
